@@ -1,5 +1,7 @@
 //! Contains YAML serde representation for the config.
 
+#[cfg(okane_verif)]
+use crate::verif::std;
 use std::collections::HashMap;
 use std::convert::{TryFrom, TryInto};
 use std::path::{Path, PathBuf};
